@@ -158,7 +158,10 @@ func c16Worker(raw json.RawMessage) *engine.Result {
 				if int(vd.Root.Size) != len(vd.Tree.Entries) {
 					viol("root-size", "root says size %d, tree has %d entries [%s]", vd.Root.Size, len(vd.Tree.Entries), where)
 				}
-				if len(vd.Tree.Entries) > 0 && int(vd.Root.Height) != vd.Tree.Height-1 {
+				// The recorded height is the layer of the root node. Lower layers may be empty (mast's grow moves
+				// every key of a higher layer into the new root; if all keys qualify the new root has no children),
+				// so fewer node levels than height+1 is a well-formed sparse tree; more is not.
+				if len(vd.Tree.Entries) > 0 && vd.Tree.Height-1 > int(vd.Root.Height) {
 					viol("root-height", "root says height %d, tree has %d levels [%s]", vd.Root.Height, vd.Tree.Height, where)
 				}
 				if vd.Root.BranchFactor != uint(cs.Cfg.EPN) {
